@@ -348,7 +348,12 @@ func c03Native(cl *IPClient, remote netip.AddrPort) {
 						srv.WriteToUDP(out, from)
 					} else {
 						s4 := d.src.Addr().As4()
-						alt, err := net.ListenUDP("udp", &net.UDPAddr{IP: net.IP(s4[:])})
+						// same source port as in the counterexample when it can be bound (a foreign host
+						// may well use the server's port number)
+						alt, err := net.ListenUDP("udp", &net.UDPAddr{IP: net.IP(s4[:]), Port: int(d.src.Port())})
+						if err != nil {
+							alt, err = net.ListenUDP("udp", &net.UDPAddr{IP: net.IP(s4[:])})
+						}
 						if err == nil {
 							alt.WriteToUDP(out, from)
 							alt.Close()
